@@ -5,6 +5,7 @@ import Enc.Spec.Json.Tokens
 import Enc.Model.Json.EncString
 import Enc.Spec.Json.StdEnc
 import Enc.Spec.Json.Grammar
+import Enc.Spec.Json.StreamSpec
 import Enc.Model.Json.DecScalar
 import Enc.Spec.Json.StdDec
 import Enc.Model.Json.DynNumber
@@ -38,17 +39,11 @@ def handle (op : String) (args : List String) : Option (String × String × Stri
     let showOut : Model.Json.Stream.Out → String
       | .value raw _ => toHex raw
       | .eof => "EOF" | .unexpectedEof => "ERR" | .syntax => "ERR" | .readerErr => "RERR"
-    -- spec: the top-level values of the concatenated bytes (RFC grammar), then how the stream ends
-    let rec specVals (fuel : Nat) (b : Bytes) (acc : List String) : List String :=
-      match fuel with
-      | 0 => acc.reverse
-      | fuel + 1 =>
-        let b := Spec.Json.ws b
-        if b.isEmpty then ("EOF" :: acc).reverse
-        else match Spec.Json.value (3 * b.length + 8) (b.length + 1) b with
-          | some r => specVals fuel r (toHex (b.take (b.length - r.length)) :: acc)
-          | none => ("ERR" :: acc).reverse
-    let s := if fin == "eof" then String.intercalate "," (specVals (all.length + 2) all []) ++ ";off=1;buf=1" else "-"
+    -- spec: the chunking-free value stream of the concatenated bytes (Spec/Json/StreamSpec.lean; theorem Props.C11.decodeAll_eq_spec)
+    let showS : Spec.Json.SOut → String
+      | .value raw => toHex raw | .eof => "EOF" | .err => "ERR"
+    let specVals : List String := (Spec.Json.specStream (all.length + 2) all).map showS
+    let s := if fin == "eof" then String.intercalate "," specVals ++ ";off=1;buf=1" else "-"
     let m := String.intercalate "," (outs.map showOut) ++ ";off=1;buf=1"
     -- canonical forms: model END markers → compare on values + class of the end
     pure (m, s, "")
